@@ -31,7 +31,7 @@ Definition cresp_eqb (a b : cresp) : bool :=
 Definition ustate_eqb (a b : ustate) : bool := match a, b with InUse, InUse | Revoked, Revoked => true | _, _ => false end.
 Definition objects_eqb (a b : objects) : bool := (o_num a =? o_num b) && set_eqb (o_issued a) (o_issued b).
 Definition tchild_eqb (a b : tchild) : bool :=
-  amap_eqb ustate_eqb (tc_used a) (tc_used b) && amap_eqb creq_eqb (tc_reqs a) (tc_reqs b) && amap_eqb cresp_eqb (tc_resps a) (tc_resps b).
+  (tc_id a =? tc_id b) && amap_eqb ustate_eqb (tc_used a) (tc_used b) && amap_eqb creq_eqb (tc_reqs a) (tc_reqs b) && amap_eqb cresp_eqb (tc_resps a) (tc_resps b).
 Definition sinfo_eqb (a b : sinfo) : bool := (si_id a =? si_id b) && (si_ta a =? si_ta b) && objects_eqb (si_objs a) (si_objs b).
 Definition proxy_eqb (a b : proxy) : bool :=
   (p_id a =? p_id b) && opt_eqb sinfo_eqb (p_signer a) (p_signer b)
@@ -129,6 +129,9 @@ Definition ok_pstep (cur : proxy) (st : pstep) : bool :=
   (* delivered exactly once: a hand-over succeeds iff the response is still pending (taproxy.rs:505-525);
      the second of two handlers that both saw the response must be refused *)
   | PGive c k => Bool.eqb (is_ok (ps_err st)) (is_some (open_resp cur c k))
+  (* add_child_accepted_iff / add_known_child_refused: a handle is added iff it is not known yet, whatever the
+     ID certificate that comes with it *)
+  | PAddChild c _ => Bool.eqb (is_ok (ps_err st)) (is_ok (aget c (p_children cur)))
   | _ => true
   end.
 
@@ -184,8 +187,32 @@ Definition nothing_foreign (pre post : proxy) : bool :=
                           || is_some (aget (fst ku) (tc_reqs prech))) (tc_used (snd cc)))
     (p_children post).
 
+(** pending_response_kept / used_keys_kept / add_known_child_refused on the observed transition: every child
+    of before is still there with the ID certificate it was added with; a response that waited for a child is
+    still waiting unless it was handed over to that child in this operation (or an accepted signer response
+    answered that key again); a used key is still known, in the same state unless an accepted signer
+    response said otherwise. (A response received is never dropped, used keys are never forgotten.) *)
+Definition given_in (steps : list pstep) (c k : N) : bool :=
+  existsb (fun st => match ps_cmd st, ps_err st with PGive c' k', None => (c' =? c) && (k' =? k) | _, _ => false end) steps.
+Definition answered_in (steps : list pstep) (c k : N) : bool :=
+  existsb (fun st => match accepted_response st with
+                     | Some m => match aget c (r_children (m_content m)) with Some l => is_some (aget k l) | None => false end
+                     | None => false
+                     end) steps.
+Definition nothing_forgotten (pre : proxy) (steps : list pstep) (post : proxy) : bool :=
+  forallb (fun cc =>
+    match aget (fst cc) (p_children post) with
+    | None => false
+    | Some ch' =>
+        (tc_id (snd cc) =? tc_id ch')
+        && forallb (fun ka => opt_eqb cresp_eqb (aget (fst ka) (tc_resps ch')) (Some (snd ka))
+                              || given_in steps (fst cc) (fst ka) || answered_in steps (fst cc) (fst ka)) (tc_resps (snd cc))
+        && forallb (fun ku => opt_eqb ustate_eqb (aget (fst ku) (tc_used ch')) (Some (snd ku))
+                              || (is_some (aget (fst ku) (tc_used ch')) && answered_in steps (fst cc) (fst ku))) (tc_used (snd cc))
+    end) (p_children pre).
+
 Definition ok_proxy_case (pre : proxy) (steps : list pstep) (post : proxy) (same_json : bool) : bool :=
-  ok_psteps pre steps
+  ok_psteps pre steps && nothing_forgotten pre steps post
   (* refused_no_change *)
   && (negb (forallb (fun st => negb (is_ok (ps_err st))) steps) || (same_json && proxy_eqb pre post))
   (* the open nonce is only closed by an accepted response, the objects only change by one *)
@@ -269,10 +296,11 @@ Definition ok_signer_case (pre : signer) (steps : list sstep) (post : signer) (s
 Definition ok_call_case (pre : proxy) (c k : N) (out : ocall) (post : proxy) : bool :=
   match out with
   | CDelivered a =>
-      (* delivered exactly once: it was the pending response and it is gone afterwards *)
+      (* delivered exactly once: it was the pending response and it is gone afterwards; nothing else is lost *)
       opt_eqb cresp_eqb (open_resp pre c k) (Some a) && is_ok (open_resp post c k)
+      && nothing_forgotten pre [mkPStep (PGive c k) None] post
   | CAlready | CFailed => proxy_eqb pre post
-  | CScheduled => is_some (open_req post c k)
+  | CScheduled => is_some (open_req post c k) && nothing_forgotten pre [] post
   end.
 
 Definition c15_ok (c : case) : bool :=
